@@ -178,10 +178,12 @@ pub fn pages(cx: &Cx, t: SignType, max: u64) -> Vec<Page<'static>> {
     let n = cx.draw(max + 1);
     let mut out: Vec<Page<'static>> = Vec::new();
     for _ in 0..n {
-        // now and then the same page twice in a row, byte for byte (same id, same pixels)
+        // now and then the same page again, byte for byte (same id, same pixels): mostly twice in a
+        // row, sometimes with other pages in between
         if !out.is_empty() && cx.chance(1, 6) {
-            let last = out.last().unwrap().clone();
-            out.push(last);
+            let k = if cx.chance(1, 3) { cx.draw(out.len() as u64) as usize } else { out.len() - 1 };
+            let again = out[k].clone();
+            out.push(again);
         } else {
             out.push(page(cx, w, h));
         }
